@@ -30,7 +30,9 @@ func insBefore(a, b ssa.Instruction) bool {
 // ruleAppendAlias (L-APPENDALIAS): `append(x[:k], v…)` writes into the backing array of x behind position k. A slice
 // of the tail of the same x (x[j:], taken from x as it was before the append was stored back) whose elements are read
 // after that append sees the overwritten elements: the classic broken insertion
-//     rest := x[k:]; x = append(x[:k], v); x = append(x, rest...)        (rest[0] is v by now)
+//
+//	rest := x[k:]; x = append(x[:k], v); x = append(x, rest...)        (rest[0] is v by now)
+//
 // and its one-line form append(append(x[:k], v), x[k:]...). The overlapping-copy insertion
 // `x = append(x[:k+1], x[k:]...); x[k] = v` and the deletion `append(x[:i], x[i+1:]...)` read the tail in the same
 // append that writes (memmove semantics) and are not reported.
@@ -165,6 +167,9 @@ func init() {
 		fmt.Println("direct reads", ruleShortRead(c, r, nil))
 		fmt.Println("kept slices in loops", ruleLoopBufferAlias(c, r, nil))
 		fmt.Println("map updates", ruleNilMapUpdate(c, r, nil))
+		fmt.Println("global refs stored", ruleGlobalShared(c, r, libPrefix, nil))
+		fmt.Println("x[:0] refills", ruleReuseFieldStorage(c, r, nil))
+		fmt.Println("quotients multiplied", ruleDivBeforeMul(c, r, nil))
 		fmt.Println("appends to params", ruleAppendToParam(c, r, libPrefix, nil))
 		for _, o := range r.Obls {
 			fmt.Println(o.Status, o.Key, o.Pos, o.Detail)
@@ -805,4 +810,587 @@ func ruleStartPosFromInput(c *Ctx, r *Report) int {
 		}
 	}
 	return n
+}
+
+// ruleLazyReset (O-LAZYRESET): MdatBox.Size() prefers a non-zero lazyDataSize over the length of the data held. A
+// function that appends real sample bytes (MdatBox.AddSampleData) and, through a callee, also advances lazyDataSize
+// (AddSampleToTrack accounts samples whose bytes are written separately) stores lazyDataSize = 0 after that callee:
+// otherwise the mdat announces only the lazily counted part and mixing the AddFullSample* entry points writes an
+// mdat header that is too small.
+func ruleLazyReset(c *Ctx, r *Report) int {
+	incs := map[*ssa.Function]bool{}
+	storesLazy := func(f *ssa.Function, add bool) []*ssa.Store {
+		var out []*ssa.Store
+		for _, b := range f.Blocks {
+			for _, ins := range b.Instrs {
+				st, ok := ins.(*ssa.Store)
+				if !ok {
+					continue
+				}
+				fa, ok := st.Addr.(*ssa.FieldAddr)
+				if !ok || fieldNameOf(fa) != "lazyDataSize" || typeName(fa.X.Type()) != "MdatBox" {
+					continue
+				}
+				_, isAdd := st.Val.(*ssa.BinOp)
+				if isAdd == add {
+					out = append(out, st)
+				}
+			}
+		}
+		return out
+	}
+	fns := libFuncs(c, func(f *ssa.Function) bool { return strings.HasPrefix(SSAFuncName(f), "mp4.") })
+	for _, f := range fns {
+		if len(storesLazy(f, true)) > 0 {
+			incs[f] = true
+		}
+	}
+	n := 0
+	for _, f := range fns {
+		adds := callsIn(f, "MdatBox.AddSampleData", false)
+		if len(adds) == 0 || SSAFuncName(f) == "mp4.MdatBox.AddSampleData" {
+			continue
+		}
+		var incCalls []ssa.CallInstruction
+		for _, b := range f.Blocks {
+			for _, ins := range b.Instrs {
+				if ci, ok := ins.(ssa.CallInstruction); ok {
+					if cal := ci.Common().StaticCallee(); cal != nil && incs[cal] {
+						incCalls = append(incCalls, ci)
+					}
+				}
+			}
+		}
+		n++
+		key := SSAFuncName(f) + ":lazy-size-reset"
+		if len(incCalls) == 0 && !incs[f] {
+			r.OK("O-LAZYRESET", key, c.Pos(f.Pos()), "appends sample bytes and never advances lazyDataSize")
+			continue
+		}
+		zeros := storesLazy(f, false)
+		ok := len(incCalls) > 0
+		for _, ic := range incCalls {
+			found := false
+			for _, z := range zeros {
+				if cv, isC := z.Val.(*ssa.Const); isC && cv.Value != nil && cv.Value.ExactString() == "0" && insBefore(ic, z) {
+					found = true
+				}
+			}
+			if !found {
+				ok = false
+			}
+		}
+		if ok {
+			r.OK("O-LAZYRESET", key, c.Pos(f.Pos()), "lazyDataSize is stored 0 after the callee that advances it")
+		} else {
+			r.Bad("O-LAZYRESET", key, c.Pos(f.Pos()), "appends real sample bytes and advances lazyDataSize (through a callee) without storing it 0 afterwards: Size() of the mdat then counts only the lazily accounted part")
+		}
+	}
+	return n
+}
+
+// ruleDelimitersConsulted (O-DELIM): in File.AddChild every box that can begin a fragment (emsg, moof) consults the
+// segment delimiters: startSegmentIfNeeded is called at least twice and each call is controlled by nothing but the
+// type switch (a call made only while no segment exists would let a later emsg never open a new sidx/tfra-delimited
+// segment).
+func ruleDelimitersConsulted(c *Ctx, r *Report) {
+	f := c.ssaFunc(r, "O-DELIM", "mp4", "File.AddChild")
+	if f == nil {
+		return
+	}
+	key := "mp4.File.AddChild:delimiters-consulted-unconditionally"
+	calls := callsIn(f, "File.startSegmentIfNeeded", false)
+	if len(calls) < 2 {
+		r.Bad("O-DELIM", key, c.Pos(f.Pos()), fmt.Sprintf("startSegmentIfNeeded is called from %d places; the emsg and the moof arm must both consult the delimiters", len(calls)))
+		return
+	}
+	for _, k := range calls {
+		for _, cond := range controlConds(k.Block()) {
+			v := cond
+			if u, ok := v.(*ssa.UnOp); ok && u.Op == token.NOT {
+				v = u.X
+			}
+			ex, ok := v.(*ssa.Extract)
+			if ok {
+				if _, isTA := ex.Tuple.(*ssa.TypeAssert); isTA {
+					continue
+				}
+			}
+			r.Bad("O-DELIM", key, c.Pos(k.Pos()), "a call of startSegmentIfNeeded is conditional on something other than the box type: boxes for which the condition fails never open a delimited segment")
+			return
+		}
+	}
+	r.OK("O-DELIM", key, c.Pos(calls[0].Pos()), fmt.Sprintf("%d arms consult the delimiters, each under the type switch only", len(calls)))
+}
+
+// hasRefs: the type holds references to shared storage (slice, map, pointer, chan, or a struct/array containing one).
+func hasRefs(t types.Type, depth int) bool {
+	if depth > 4 {
+		return false
+	}
+	switch u := t.Underlying().(type) {
+	case *types.Slice, *types.Map, *types.Pointer, *types.Chan:
+		return true
+	case *types.Struct:
+		for i := 0; i < u.NumFields(); i++ {
+			if hasRefs(u.Field(i).Type(), depth+1) {
+				return true
+			}
+		}
+	case *types.Array:
+		return hasRefs(u.Elem(), depth+1)
+	}
+	return false
+}
+
+// ruleGlobalShared (R2-SHARE): storage owned by a package-level variable is not handed to objects: no library
+// function outside init stores a slice, map or pointer loaded from a package-level variable (or a struct copied out
+// of one that contains such references) into a field, an element, or a local that it returns. Two objects built
+// that way share one backing array (a File template whose Children slice has capacity 8; a precomputed UUID slice
+// given to every tfxd box) and a write through one of them is seen by all.
+func ruleGlobalShared(c *Ctx, r *Report, scope func(*ssa.Function) bool, allowed map[string]string) int {
+	n := 0
+	for _, f := range libFuncs(c, scope) {
+		if f.Name() == "init" || strings.HasPrefix(f.Name(), "init#") {
+			continue
+		}
+		// values rooted at a load of a package-level variable with references
+		fromGlobal := func(v ssa.Value) *ssa.Global {
+			for i := 0; i < 6; i++ {
+				switch x := v.(type) {
+				case *ssa.UnOp:
+					if x.Op != token.MUL {
+						return nil
+					}
+					if g, ok := x.X.(*ssa.Global); ok {
+						if hasRefs(x.Type(), 0) {
+							return g
+						}
+						return nil
+					}
+					// a field of a global struct: load of FieldAddr(global)
+					if fa, ok := x.X.(*ssa.FieldAddr); ok {
+						if g, ok := fa.X.(*ssa.Global); ok && hasRefs(x.Type(), 0) {
+							return g
+						}
+					}
+					return nil
+				case *ssa.Slice:
+					v = x.X
+				case *ssa.ChangeType:
+					v = x.X
+				default:
+					return nil
+				}
+			}
+			return nil
+		}
+		idx := 0
+		for _, b := range f.Blocks {
+			for _, ins := range b.Instrs {
+				st, ok := ins.(*ssa.Store)
+				if !ok {
+					continue
+				}
+				g := fromGlobal(st.Val)
+				if g == nil || g.Pkg == nil || !strings.Contains(g.Pkg.Pkg.Path(), "mp4ff") {
+					continue
+				}
+				// error values and other interface-typed sentinels are compared, not written through
+				if _, isIface := st.Val.Type().Underlying().(*types.Interface); isIface {
+					continue
+				}
+				n++
+				idx++
+				key := fmt.Sprintf("%s:%s#%d", SSAFuncName(f), g.Name(), idx)
+				if why, ok := allowed[SSAFuncName(f)+":"+g.Name()]; ok {
+					r.OK("R2-SHARE", key, c.Pos(st.Pos()), "accepted: "+why)
+					continue
+				}
+				r.Bad("R2-SHARE", key, c.Pos(st.Pos()), fmt.Sprintf("a reference into the storage of package-level variable %s is stored into an object: every object built here shares that storage, and a write through one is seen by all", g.Name()))
+			}
+		}
+	}
+	return n
+}
+
+// ruleReuseFieldStorage (O-REUSE): `x.f = append(x.f[:0], …)` overwrites in place whatever storage the field points
+// at. For a field that a decoder may have set to a sub-slice of its input, or a constructor to shared storage, that
+// is a write into memory the object does not own. In the library a field is re-filled from position 0 only when the
+// same function made the storage; everything else allocates (append([]T(nil), …) / make+copy).
+func ruleReuseFieldStorage(c *Ctx, r *Report, scope func(*ssa.Function) bool) int {
+	n := 0
+	for _, f := range libFuncs(c, scope) {
+		idx := 0
+		for _, b := range f.Blocks {
+			for _, ins := range b.Instrs {
+				call, ok := ins.(*ssa.Call)
+				if !ok {
+					continue
+				}
+				bi, ok := call.Call.Value.(*ssa.Builtin)
+				if !ok || bi.Name() != "append" || len(call.Call.Args) != 2 {
+					continue
+				}
+				sl, ok := call.Call.Args[0].(*ssa.Slice)
+				if !ok || sl.High == nil {
+					continue
+				}
+				if cs, ok := constSet(sl.High, 0); !ok || len(cs) != 1 || cs[0] != 0 {
+					continue
+				}
+				n++
+				idx++
+				key := fmt.Sprintf("%s:append(x[:0], …)#%d", SSAFuncName(f), idx)
+				// whose storage?
+				ld, isLoad := sl.X.(*ssa.UnOp)
+				if isLoad && ld.Op == token.MUL {
+					if _, isField := ld.X.(*ssa.FieldAddr); isField {
+						r.Bad("O-REUSE", key, c.Pos(call.Pos()), "re-fills a struct field from position 0 in place: the storage may be a sub-slice of decoder input or shared with other objects, and is overwritten")
+						continue
+					}
+				}
+				if _, isParam := sl.X.(*ssa.Parameter); isParam {
+					r.Bad("O-REUSE", key, c.Pos(call.Pos()), "re-fills the caller's slice from position 0 in place")
+					continue
+				}
+				r.OK("O-REUSE", key, c.Pos(call.Pos()), "re-fills a local buffer")
+			}
+		}
+	}
+	return n
+}
+
+// ruleDivBeforeMul (L-DIVMUL): an integer quotient that is then multiplied (`a * (b / c)`, or `t := b / c; … a * t`)
+// has thrown away the remainder first: 90000-tick timescales divided by 1000 lose 0 but 44100 or 15360 lose a
+// fraction that the multiplication magnifies. Accepted: the rounding idiom `(x / c) * c` (same constant) and
+// quotients of two constants.
+func ruleDivBeforeMul(c *Ctx, r *Report, scope func(*ssa.Function) bool) int {
+	n := 0
+	for _, f := range libFuncs(c, scope) {
+		idx := 0
+		for _, b := range f.Blocks {
+			for _, ins := range b.Instrs {
+				mul, ok := ins.(*ssa.BinOp)
+				if !ok || mul.Op != token.MUL || !isIntType(mul.Type()) {
+					continue
+				}
+				for i, o := range []ssa.Value{mul.X, mul.Y} {
+					other := []ssa.Value{mul.Y, mul.X}[i]
+					q := o
+					for {
+						if cv, ok := q.(*ssa.Convert); ok && isIntType(cv.X.Type()) {
+							q = cv.X
+							continue
+						}
+						if ct, ok := q.(*ssa.ChangeType); ok {
+							q = ct.X
+							continue
+						}
+						break
+					}
+					quo, ok := q.(*ssa.BinOp)
+					if !ok || quo.Op != token.QUO || !isIntType(quo.Type()) {
+						continue
+					}
+					_, cx := quo.X.(*ssa.Const)
+					_, cy := quo.Y.(*ssa.Const)
+					if cx && cy {
+						continue
+					}
+					n++
+					idx++
+					key := fmt.Sprintf("%s:(a/b)*c#%d", SSAFuncName(f), idx)
+					// rounding idiom: same constant, or the same value, as divisor and multiplier
+					d1, ok1 := constSet(quo.Y, 0)
+					d2, ok2 := constSet(other, 0)
+					if ok1 && ok2 && len(d1) == 1 && len(d2) == 1 && d1[0] == d2[0] {
+						r.OK("L-DIVMUL", key, c.Pos(mul.Pos()), "rounds down to a multiple of the same constant")
+						continue
+					}
+					if sameValue(stripConv(quo.Y), stripConv(other)) || stripConv(quo.Y) == stripConv(other) {
+						r.OK("L-DIVMUL", key, c.Pos(mul.Pos()), "rounds down to a multiple of the divisor")
+						continue
+					}
+					r.Bad("L-DIVMUL", key, c.Pos(mul.Pos()), "an integer quotient is multiplied afterwards: the remainder is dropped before the multiplication magnifies the error (multiply first, then divide)")
+				}
+			}
+		}
+	}
+	return n
+}
+
+// ruleDecoderNoSizeStore (O-POS, second clause): a box decoder (a function with a BoxHeader parameter) does not store
+// a value computed from the re-calculated Size() of the box it is building: positions inside the input (the sidx
+// anchor point, start positions of children) are computed from the header that was read. Size() may be consulted
+// to compare it with the size read.
+func ruleDecoderNoSizeStore(c *Ctx, r *Report) int {
+	n := 0
+	for _, f := range libFuncs(c, func(f *ssa.Function) bool { return strings.HasPrefix(SSAFuncName(f), "mp4.") }) {
+		hasHdr := false
+		for _, p := range f.Params {
+			if typeName(p.Type()) == "BoxHeader" {
+				hasHdr = true
+			}
+		}
+		if !hasHdr {
+			continue
+		}
+		for _, b := range f.Blocks {
+			for _, ins := range b.Instrs {
+				call, ok := ins.(*ssa.Call)
+				if !ok {
+					continue
+				}
+				name := ""
+				if call.Call.IsInvoke() {
+					name = call.Call.Method.Name()
+				} else if cal := call.Call.StaticCallee(); cal != nil && cal.Signature.Recv() != nil {
+					name = cal.Name()
+				}
+				if name != "Size" {
+					continue
+				}
+				n++
+				key := fmt.Sprintf("%s:Size()-in-decoder", SSAFuncName(f))
+				// every use of the result (through arithmetic) ends in a comparison, never in a store
+				bad := false
+				seen := map[ssa.Value]bool{}
+				var walk func(v ssa.Value, d int)
+				walk = func(v ssa.Value, d int) {
+					if d > 6 || seen[v] || v.Referrers() == nil {
+						return
+					}
+					seen[v] = true
+					for _, ref := range *v.Referrers() {
+						switch x := ref.(type) {
+						case *ssa.Store:
+							if x.Val == v {
+								if _, isField := x.Addr.(*ssa.FieldAddr); isField {
+									bad = true
+								}
+							}
+						case *ssa.BinOp:
+							switch x.Op {
+							case token.EQL, token.NEQ, token.LSS, token.LEQ, token.GTR, token.GEQ:
+							default:
+								walk(x, d+1)
+							}
+						case *ssa.Convert:
+							walk(x, d+1)
+						case *ssa.Phi:
+							walk(x, d+1)
+						}
+					}
+				}
+				walk(call, 0)
+				if bad {
+					r.Bad("O-POS", key, c.Pos(call.Pos()), "a value computed from the re-calculated Size() of the box being decoded is stored in the box: a position in the input must come from the header that was read (the two differ for a 16-byte header on a small box)")
+				} else {
+					r.OK("O-POS", key, c.Pos(call.Pos()), "Size() is only compared, not stored")
+				}
+			}
+		}
+	}
+	return n
+}
+
+// cycleAvoiding: the loop has a cycle through its header that passes none of the given blocks; returns a block on it.
+func cycleAvoidingBlocks(l *loopInfo, avoid map[*ssa.BasicBlock]bool) *ssa.BasicBlock {
+	if avoid[l.header] {
+		return nil
+	}
+	seen := map[*ssa.BasicBlock]bool{}
+	var stack []*ssa.BasicBlock
+	for _, s := range l.header.Succs {
+		if l.blocks[s] {
+			stack = append(stack, s)
+		}
+	}
+	for len(stack) > 0 {
+		x := stack[len(stack)-1]
+		stack = stack[:len(stack)-1]
+		if seen[x] || avoid[x] || !l.blocks[x] {
+			continue
+		}
+		seen[x] = true
+		for _, s := range x.Succs {
+			if s == l.header {
+				return x
+			}
+			stack = append(stack, s)
+		}
+	}
+	return nil
+}
+
+// ruleEveryCycleCalls (O-EVERY): in function fn every cycle of the loop around the calls of callee passes one of
+// them: no iteration goes round the call.
+func ruleEveryCycleCalls(c *Ctx, r *Report, pkg, fn, callee, what string) {
+	f := c.ssaFunc(r, "O-EVERY", pkg, fn)
+	if f == nil {
+		return
+	}
+	key := fmt.Sprintf("%s.%s:every-iteration-calls-%s", pkg, fn, callee)
+	calls := callsIn(f, callee, false)
+	if len(calls) == 0 {
+		r.Undecided("O-EVERY", key, c.Pos(f.Pos()), "no call of "+callee+" found")
+		return
+	}
+	avoid := map[*ssa.BasicBlock]bool{}
+	for _, k := range calls {
+		avoid[k.Block()] = true
+	}
+	var outer *loopInfo
+	for _, l := range naturalLoops(f) {
+		if l.blocks[calls[0].Block()] && (outer == nil || len(l.blocks) > len(outer.blocks)) {
+			outer = l
+		}
+	}
+	if outer == nil {
+		r.Undecided("O-EVERY", key, c.Pos(f.Pos()), "the calls are not inside a loop")
+		return
+	}
+	if via := cycleAvoidingBlocks(outer, avoid); via != nil {
+		r.Bad("O-EVERY", key, c.Pos(firstPos(via)), "an iteration of the loop can go round every call of "+callee+": "+what)
+	} else {
+		r.OK("O-EVERY", key, c.Pos(calls[0].Pos()), fmt.Sprintf("every cycle of the loop passes one of the %d calls", len(calls)))
+	}
+}
+
+// ruleCursorSkip (L-CURSORSKIP): in the loops of package mp4 that walk a sample with a byte cursor advanced by
+// SubSamplePattern.BytesOfClearData, an iteration leaves the cursor where it was only under a test of the clear-byte
+// count itself. A `continue` taken for another reason (nothing to encrypt in this entry) skips the clear bytes of
+// the entry and every later range is applied too early.
+func ruleCursorSkip(c *Ctx, r *Report) int {
+	n := 0
+	dependsOnClear := func(v ssa.Value) bool {
+		return sliceHas(backSlice(c, v, 0), "field", "SubSamplePattern.BytesOfClearData")
+	}
+	for _, f := range libFuncs(c, func(f *ssa.Function) bool { return strings.HasPrefix(SSAFuncName(f), "mp4.") }) {
+		for _, l := range naturalLoops(f) {
+			for _, ins := range l.header.Instrs {
+				phi, ok := ins.(*ssa.Phi)
+				if !ok {
+					break
+				}
+				if !isIntType(phi.Type()) {
+					continue
+				}
+				// expand the in-loop edges through inner phis
+				type leaf struct {
+					v    ssa.Value
+					from *ssa.BasicBlock
+				}
+				var leaves []leaf
+				seen := map[ssa.Value]bool{}
+				var expand func(v ssa.Value, from *ssa.BasicBlock, d int)
+				expand = func(v ssa.Value, from *ssa.BasicBlock, d int) {
+					if ip, ok := v.(*ssa.Phi); ok && ip != phi && d < 5 && l.blocks[ip.Block()] && !seen[ip] {
+						seen[ip] = true
+						for i, e := range ip.Edges {
+							expand(e, ip.Block().Preds[i], d+1)
+						}
+						return
+					}
+					leaves = append(leaves, leaf{v, from})
+				}
+				for i, e := range phi.Edges {
+					if l.blocks[l.header.Preds[i]] {
+						expand(e, l.header.Preds[i], 0)
+					}
+				}
+				advancesByClear := false
+				for _, lf := range leaves {
+					if bo, ok := lf.v.(*ssa.BinOp); ok && bo.Op == token.ADD && (dependsOnClear(bo.Y) || dependsOnClear(bo.X)) {
+						advancesByClear = true
+					}
+				}
+				if !advancesByClear {
+					continue
+				}
+				n++
+				key := fmt.Sprintf("%s:cursor %s", SSAFuncName(f), phi.Comment)
+				bad := ""
+				for _, lf := range leaves {
+					if lf.v != ssa.Value(phi) {
+						continue
+					}
+					// the cursor is unchanged on this edge: the edge must be taken under a test of the clear count
+					ok := false
+					conds := controlCondsDeep(lf.from)
+					if len(lf.from.Instrs) > 0 {
+						if ifi, isIf := lf.from.Instrs[len(lf.from.Instrs)-1].(*ssa.If); isIf {
+							conds = append(conds, ifi.Cond)
+						}
+					}
+					for _, cond := range conds {
+						if dependsOnClear(cond) {
+							ok = true
+						}
+					}
+					if !ok {
+						bad = fmt.Sprintf("an iteration leaves the byte cursor unchanged on a path (through block %d) that is not decided by the clear-byte count: the clear bytes of that entry are not skipped", lf.from.Index)
+					}
+				}
+				if bad != "" {
+					r.Bad("L-CURSORSKIP", key, c.Pos(phi.Pos()), bad)
+				} else {
+					r.OK("L-CURSORSKIP", key, c.Pos(phi.Pos()), "the cursor stays where it is only when the entry has no clear bytes")
+				}
+			}
+		}
+	}
+	return n
+}
+
+// ruleCountingReader (DEP): the byte counter DecodeFile uses for start positions advances by what the wrapped
+// reader reports as read, not by the size of the buffer offered.
+func ruleCountingReader(c *Ctx, r *Report) {
+	f := c.ssaFunc(r, "DEP", "mp4", "countingReader.Read")
+	if f == nil {
+		return
+	}
+	key := "mp4.countingReader.Read:count-is-bytes-read"
+	n := 0
+	for _, b := range f.Blocks {
+		for _, ins := range b.Instrs {
+			st, ok := ins.(*ssa.Store)
+			if !ok {
+				continue
+			}
+			if _, isField := st.Addr.(*ssa.FieldAddr); !isField || !isIntType(st.Val.Type()) {
+				continue
+			}
+			n++
+			bo, ok := st.Val.(*ssa.BinOp)
+			good := false
+			if ok && bo.Op == token.ADD {
+				for _, o := range []ssa.Value{bo.X, bo.Y} {
+					v := o
+					for {
+						if cv, isCv := v.(*ssa.Convert); isCv {
+							v = cv.X
+							continue
+						}
+						break
+					}
+					if ex, isEx := v.(*ssa.Extract); isEx && ex.Index == 0 {
+						if call, isCall := ex.Tuple.(*ssa.Call); isCall && call.Call.IsInvoke() && call.Call.Method.Name() == "Read" {
+							good = true
+						}
+					}
+				}
+			}
+			if !good {
+				r.Bad("DEP", key, c.Pos(st.Pos()), "the counter is not advanced by the number of bytes the wrapped Read returned: with short reads the recorded start positions run ahead of the input")
+				return
+			}
+		}
+	}
+	if n == 0 {
+		r.Undecided("DEP", key, c.Pos(f.Pos()), "no counter update found")
+		return
+	}
+	r.OK("DEP", key, c.Pos(f.Pos()), "the counter advances by the number of bytes the wrapped reader returned")
 }
